@@ -132,3 +132,8 @@ for _p in ("C04", "C05", "C14", "C07"):
     PROPS[_p]["rule"] += "; in 20% of the runs the instrumented model kernels also yield before every statement (bounded to 1500 kernel-level scheduling points per run), so that cells/models interleave inside their kernels"
 
 PROPS["C17"]["env"] = {"VERIF_RUN_TIMEOUT_S": 10}
+
+# C17 supplementary phases: several requests answered concurrently (scheduler and -race binary)
+PROPS["C17"]["also"] = [{"engine": "jsonconc", "race": False, "runs_quick": 150, "runs_thorough": 20000},
+                        {"engine": "jsonconc", "race": True, "runs_quick": 100, "runs_thorough": 10000}]
+PROPS["C17"]["rule"] += "; a writer that fails in mid-answer is injected before some requests (its own answer is not asserted, the following ones are); supplementary phases answer 2-4 complete requests concurrently as tasks under the seeded scheduler and in the -race binary"
